@@ -158,6 +158,9 @@ def family_bins0(tier, seed, n=None):
             if useiff:
                 d["g"] = rnd.choice([0, 1])
             ops.append({"op": "sample", "inst": 1, "vals": d})
+        # the same value three times in a row: every sample counts, whatever preceded it
+        d = dict({"a": vals[(t * 7) % len(vals)]}, **other)
+        ops += [{"op": "sample", "inst": 1, "vals": dict(d)} for _ in range(3)]
         out.append({"id": "bins/%s/%d" % ("core" if t < n // 2 else "s%d" % seed, t), "shapes": {"S": shape}, "ops": ops})
     # (a) ONE bins specification object shared by two coverpoints of a covergroup and by every instance of the class
     # (b) a covergroup that samples OBJECTS: different objects are handed over in turn
@@ -246,6 +249,10 @@ def family_cross0(tier, seed, n=None):
             for g in gates:
                 d[g] = rnd.choice([0, 1, 1])
             ops.append({"op": "sample", "inst": 1, "vals": d})
+        d = dict(zip(names, combos[(t * 5) % len(combos)]))
+        for g in gates:
+            d[g] = 1
+        ops += [{"op": "sample", "inst": 1, "vals": dict(d)} for _ in range(3)]          # the same combination three times in a row
         out.append({"id": "cross/%s/%d" % ("core" if t < n // 2 else "s%d" % seed, t), "shapes": {"S": shape}, "ops": ops})
     return out
 
@@ -455,8 +462,9 @@ def family_wild(tier, seed):
                 cps.append({"name": "wa%d" % i, "var": "a", "bins": [{"name": "wab", "kind": "wildarray", "n": (c + i) % 4, "pats": [[v, m]]}]})
         shape = {"cls": "CGW", "vars": {"a": {"w": W}}, "cps": cps}
         seq = [{"a": v} for v in range(1 << W)]
+        # (the second half samples every value twice in a row: a repeat is a hit like any other sample)
         ops = [{"op": "new", "shape": "S"}, {"op": "sweep", "inst": 1, "seq": seq[:len(seq) // 2]},
-               {"op": "sweep", "inst": 1, "seq": seq[len(seq) // 2:]}]
+               {"op": "sweep", "inst": 1, "seq": [x for v_ in seq[len(seq) // 2:] for x in (v_, v_)]}]
         out.append({"id": "wild/pair/%d" % c, "shapes": {"S": shape}, "ops": ops})
     # (value, mask) pairs whose value carries bits OUTSIDE the mask: those bits are wildcards and do not matter
     rndo = random.Random(1921 + seed)
@@ -534,7 +542,7 @@ def family_wild(tier, seed):
         shape = {"cls": "CGW", "vars": {"a": {"w": Wt}}, "cps": cps}
         ops = [{"op": "new", "shape": "S"}]
         if Wt <= 4:
-            ops += [{"op": "sample", "inst": 1, "vals": {"a": v}} for v in range(1 << Wt)]
+            ops += [{"op": "sample", "inst": 1, "vals": {"a": v}} for v in range(1 << Wt) for _ in range(1 + (v + t) % 3 // 2)]
         else:
             ops.append({"op": "sweep", "inst": 1, "seq": [{"a": v} for v in range(1 << Wt)]})
         out.append({"id": "wild/multi/s%d/%d" % (seed, t), "shapes": {"S": shape}, "ops": ops})
